@@ -23,7 +23,8 @@ for d in sorted(glob.glob('/verif/seeded/S*')):
             "test_suite_rerun_by_me": (json.load(open(os.path.join(d, 'tests_confirmed.json'))) if os.path.exists(os.path.join(d, 'tests_confirmed.json')) else None),
             "how": "tools/seed_eval.sh: demo.py run in the scratch worktree with and without patch.diff (PYTHONPATH=<worktree>); then `git -C /repo apply patch.diff`, every ./check Cxx (quick), `git -C /repo checkout -- .`",
         },
-        "checks_reporting_a_violation": ev["checks_reporting"].split(),
+        "checks_reporting_a_violation": [c for c in ev["checks_reporting"].split() if "exit1" in c],
+        "checks_without_verdict_exit2": [c for c in ev["checks_reporting"].split() if "exit1" not in c],
         "first_report_per_check": logs,
     }
     json.dump(meta, open(os.path.join(d, 'meta.json'), 'w'), indent=1)
